@@ -219,7 +219,7 @@ fn marked_eq_hash_ignore_span(v: u8) {
 macro_rules! marked_harness {
     ($name:ident, $v:expr) => {
         #[kani::proof]
-        #[kani::unwind(50)]
+        #[kani::unwind(12)]
         pub fn $name() {
             marked_eq_hash_ignore_span($v);
         }
